@@ -225,7 +225,7 @@ Definition init (balance deposit epoch p own wrk : Z) : state :=
      early_term := false |}.
 
 (* apply_rewards; `s` already holds the value sent with the message *)
-Definition apply_rewards (s : state) (caller epoch reward penalty upt : Z) : res (state * outcome) :=
+Definition apply_rewards_core (s : state) (caller epoch reward penalty upt : Z) : res (state * outcome) :=
   if reward <? 0 then Err ILLEGAL_ARGUMENT else
   if penalty <? 0 then Err ILLEGAL_ARGUMENT else
   if negb (caller =? REWARD_ACTOR_ID) then Err FORBIDDEN else
@@ -237,12 +237,17 @@ Definition apply_rewards (s : state) (caller epoch reward penalty upt : Z) : res
   bind (f_repay_partial f2 epoch (bal s)) (fun '(f3, to_burn, total_unlocked, unv) =>
   let delta := lock - newly_vested - total_unlocked in
   bind (nested (negb (delta =? 0)) upt) (fun _ =>
-  finish (set_bal_fu s (bal s - Z.max to_burn 0) f3)
+  Ok (set_bal_fu s (bal s - Z.max to_burn 0) f3,
     {| code := EOK; ret := 0; sends := send_pledge delta ++ send_value BURNT_FUNDS_ACTOR_ID to_burn;
        added := lock; vested := newly_vested + (total_unlocked - unv); drawn := unv;
-       burnt := Z.max to_burn 0; paid := 0 |}))))).
+       burnt := Z.max to_burn 0; paid := 0 |})))))).
+(* ... followed by the final check_balance_invariants *)
+Definition checked (r : res (state * outcome)) : res (state * outcome) :=
+  bind r (fun '(s', o) => finish s' o).
+Definition apply_rewards (s : state) (caller epoch reward penalty upt : Z) : res (state * outcome) :=
+  checked (apply_rewards_core s caller epoch reward penalty upt).
 
-Definition withdraw_balance (s : state) (caller epoch requested upt : Z) : res (state * outcome) :=
+Definition withdraw_balance_core (s : state) (caller epoch requested upt : Z) : res (state * outcome) :=
   if requested <? 0 then Err ILLEGAL_ARGUMENT else
   if negb ((caller =? owner s) || (caller =? benef s)) then Err FORBIDDEN else
   if early_term s then Err FORBIDDEN else
@@ -260,29 +265,33 @@ Definition withdraw_balance (s : state) (caller epoch requested upt : Z) : res (
                                    expiration := expiration (term s) |} else term s) in
   bind r (fun '(amt, tm) =>
   bind (nested (negb (newly_vested =? 0)) upt) (fun _ =>
-  finish (set_term (set_bal_fu s (bal s - Z.max amt 0 - Z.max fee_to_burn 0) f2) tm)
+  Ok (set_term (set_bal_fu s (bal s - Z.max amt 0 - Z.max fee_to_burn 0) f2) tm,
     {| code := EOK; ret := amt;
        sends := send_value (benef s) amt ++ send_value BURNT_FUNDS_ACTOR_ID fee_to_burn ++
                 send_pledge (- newly_vested);
        added := 0; vested := newly_vested; drawn := 0;
-       burnt := Z.max fee_to_burn 0; paid := Z.max amt 0 |}))))).
+       burnt := Z.max fee_to_burn 0; paid := Z.max amt 0 |})))))).
+Definition withdraw_balance (s : state) (caller epoch requested upt : Z) : res (state * outcome) :=
+  checked (withdraw_balance_core s caller epoch requested upt).
 
 Definition is_control (s : state) (c : Z) : bool :=
   existsb (Z.eqb c) (controls s ++ [worker s; owner s]).
 
-Definition repay_debt (s : state) (caller epoch upt : Z) : res (state * outcome) :=
+Definition repay_debt_core (s : state) (caller epoch upt : Z) : res (state * outcome) :=
   if negb (is_control s caller) then Err FORBIDDEN else
   bind (f_repay_partial (fu s) epoch (bal s)) (fun '(f1, to_burn, total_unlocked, unv) =>
   bind (nested (negb (total_unlocked =? 0)) upt) (fun _ =>
-  finish (set_bal_fu s (bal s - Z.max to_burn 0) f1)
+  Ok (set_bal_fu s (bal s - Z.max to_burn 0) f1,
     {| code := EOK; ret := 0;
        sends := send_pledge (- total_unlocked) ++ send_value BURNT_FUNDS_ACTOR_ID to_burn;
        added := 0; vested := total_unlocked - unv; drawn := unv;
-       burnt := Z.max to_burn 0; paid := 0 |})).
+       burnt := Z.max to_burn 0; paid := 0 |}))).
+Definition repay_debt (s : state) (caller epoch upt : Z) : res (state * outcome) :=
+  checked (repay_debt_core s caller epoch upt).
 
 (* handle_proving_deadline for a miner without sectors or pre-commits; `penalty` stands for the fees
    the un-modelled sector bookkeeping charges (0 in the C14 harness) *)
-Definition deadline_cron (s : state) (caller epoch penalty upt enr : Z) : res (state * outcome) :=
+Definition deadline_cron_core (s : state) (caller epoch penalty upt enr : Z) : res (state * outcome) :=
   if negb (caller =? STORAGE_POWER_ACTOR_ID) then Err FORBIDDEN else
   bind (f_apply_penalty (fu s) penalty) (fun f0 =>
   bind (f_repay_partial f0 epoch (bal s)) (fun '(f1, to_burn, total_unlocked, unv) =>
@@ -291,12 +300,14 @@ Definition deadline_cron (s : state) (caller epoch penalty upt enr : Z) : res (s
   let continue_cron := negb (pcd f2 =? 0) || negb (ip f2 =? 0) || negb (locked f2 =? 0) in
   bind (nested (negb (delta =? 0)) upt) (fun _ =>
   bind (nested continue_cron enr) (fun _ =>
-  finish (set_bal_fu s (bal s - Z.max to_burn 0) f2)
+  Ok (set_bal_fu s (bal s - Z.max to_burn 0) f2,
     {| code := EOK; ret := 0;
        sends := send_value BURNT_FUNDS_ACTOR_ID to_burn ++ send_pledge delta ++
                 (if continue_cron then [(STORAGE_POWER_ACTOR_ID, ENROLL_CRON_EVENT_METHOD, 0, 0)] else []);
        added := 0; vested := (total_unlocked - unv) + newly_vested; drawn := unv;
-       burnt := Z.max to_burn 0; paid := 0 |}))))).
+       burnt := Z.max to_burn 0; paid := 0 |})))))).
+Definition deadline_cron (s : state) (caller epoch penalty upt enr : Z) : res (state * outcome) :=
+  checked (deadline_cron_core s caller epoch penalty upt enr).
 
 Definition change_beneficiary (s : state) (caller epoch : Z) (newb : option Z) (q e : Z)
   : res (state * outcome) :=
